@@ -750,3 +750,74 @@ def rule_sort_emit(ctx, prop):
                               f"copy of the state, so an `-- stylua: ignore start` / `ignore end` seen there is forgotten for the "
                               f"following groups (statements inside an ignored region are reordered)", f.loc(t["sp"]), cfg)
     return rep
+
+
+def rule_descend(ctx, prop):
+    """an out-of-range statement is not skipped: it is handed to the formatter that dispatches to the range-only visitor, which
+    walks into its nested blocks looking for statements inside the range"""
+    rep = Report(prop, "R-SKIP(h)", "where a function asks should_format_node about a statement it iterates over (not its own parameter), "
+                                    "every path on which the answer is not Normal and the function returns hands that statement to a "
+                                    "formatter that dispatches out-of-range nodes to the range-only visitor (format_stmt / "
+                                    "format_last_stmt / stmt_block::*)")
+    fam = re.compile(r"^formatters::stmt::stmt_block::[a-z_]+$|^formatters::block::format_last_stmt_block$")
+    for cfg, prog in ctx.programs.items():
+        desc = set()
+        for g in prog.fns("stylua_lib"):
+            if g.kind == "Closure":
+                continue
+            cs = {callee(t) for b, t in g.calls()}
+            if fam.search(g.path) or (SFN in cs and any(fam.search(c) for c in cs)):
+                desc.add(g.path)
+        if not rep.anchor(len(desc) >= 3, f"formatters that dispatch out-of-range nodes to the range-only visitor ({len(desc)})", cfg):
+            continue
+        n = 0
+        for f in prog.fns("stylua_lib"):
+            if f.kind == "Closure" or not f.path.startswith("formatters::") or f.path in desc:
+                continue
+            sites = []
+            for b, t in f.calls():
+                if callee(t) != SFN or len(t["args"]) < 2 or is_const(t["args"][1]):
+                    continue
+                ty = f.local_ty(op_place(t["args"][1])["l"])
+                if not re.search(r"full_moon::ast::(Stmt|LastStmt)\b", ty):
+                    continue
+                ap = access_path(f, t["args"][1])
+                if ap[0][0] == "arg" and not ap[1]:
+                    continue
+                if any(r[0] == "call" and r[1] in desc for r in provenance(f, t["args"][1], into_aggs=False)):
+                    continue        # asked again about what a dispatching formatter returned
+                sites.append((b, t))
+            for b, t in sites:
+                sb = [b]
+                try:
+                    res = Enumerator(f, prune=lambda st, bi, f=f, sb=sb: node_status(f, st, sb) == "Normal", max_paths=200000).run()
+                except TooManyPaths:
+                    rep.anchor(False, f"{f.path}: too many paths", cfg)
+                    continue
+                roots = {r[:2] if r[0] != "call" else r for r in provenance(f, t["args"][1], into_aggs=False)}
+                npaths = 0
+                bad = None
+                for st in res:
+                    if node_status(f, st, sb) not in ("NotNormal", "NotInRange"):
+                        continue
+                    npaths += 1
+                    handed = False
+                    for bi, c, t2 in st.calls:
+                        if c in desc:
+                            for a in t2["args"]:
+                                if not is_const(a) and ({r[:2] if r[0] != "call" else r for r in provenance(f, a, into_aggs=False)} & roots):
+                                    handed = True
+                    if not handed and bad is None:
+                        bad = st
+                n += 1
+                rep.inst(f"{f.key} out-of-range statement (site #{n}) is handed to a dispatching formatter", {"paths": npaths}, cfg, ok=bad is None)
+                if bad is not None:
+                    calls = sorted({c.split("::")[-1] for _, c, _ in bad.calls if "format_" in c})
+                    rep.violation(f"{f.key} out-of-range-statement-not-visited",
+                                  f"{f.path} has a path on which should_format_node answered something other than Normal for a statement "
+                                  f"and the function returns without handing that statement to format_stmt / format_last_stmt / the "
+                                  f"range-only visitor (formatter calls on the path: {calls}): blocks nested in an out-of-range "
+                                  f"statement (`return function() .. end`, `return {{ f = function() .. end }}`) are never searched, so "
+                                  f"statements inside the range stay unformatted", f.loc(t["sp"]), cfg)
+        rep.floor("should_format_node sites over iterated statements", n, 2, cfg)
+    return rep
